@@ -343,16 +343,27 @@ func compressFlagWiring(c *core.Ctx) {
 	sets := 0
 	for _, fd := range p.AllFuncDecls(p.Connect) {
 		ast.Inspect(fd.Body, func(x ast.Node) bool {
-			kv, ok := x.(*ast.KeyValueExpr)
-			if !ok {
-				return true
+			// the place where the compressed bit is put on a frame: the Flags field of an envelope literal, or
+			// the flags argument handed to the writer directly - in both cases an `<incoming> | flag` value
+			var kv ast.Node
+			var value ast.Expr
+			switch y := x.(type) {
+			case *ast.KeyValueExpr:
+				if id, isID := y.Key.(*ast.Ident); isID && id.Name == "Flags" {
+					kv, value = y, y.Value
+				}
+			case *ast.CallExpr:
+				for _, a := range y.Args {
+					if b, ok := astx.Unparen(a).(*ast.BinaryExpr); ok && b.Op == token.OR && (astx.ConstObj(info, b.X) == flag || astx.ConstObj(info, b.Y) == flag) {
+						kv, value = y, a
+					}
+				}
 			}
-			id, isID := kv.Key.(*ast.Ident)
-			if !isID || id.Name != "Flags" {
+			if kv == nil {
 				return true
 			}
 			mentions := false
-			ast.Inspect(kv.Value, func(y ast.Node) bool {
+			ast.Inspect(value, func(y ast.Node) bool {
 				if e, ok := y.(ast.Expr); ok && astx.ConstObj(info, e) == flag {
 					mentions = true
 				}
@@ -379,7 +390,7 @@ func compressFlagWiring(c *core.Ctx) {
 				}
 			})
 			keeps := false
-			if b, ok := astx.Unparen(kv.Value).(*ast.BinaryExpr); ok && b.Op == token.OR {
+			if b, ok := astx.Unparen(value).(*ast.BinaryExpr); ok && b.Op == token.OR {
 				if astx.IsFieldNamed(info, b.X, "Flags") || astx.IsFieldNamed(info, b.Y, "Flags") {
 					keeps = true
 				}
